@@ -246,18 +246,23 @@ theorem float_roundtrip (neg : Bool) (ip : List (Fin 10)) (fp : Option (List (Fi
   simp only [cppFloat, String.toList_ofList]
   exact cppFloatL_render neg ip fp ex wf
 
-/-- the same, as the Spec predicate on the model's output -/
+/-- As the Spec predicate on the model's output: the emitted literal is a `double` literal whose
+exact decimal value rounds (IEEE-754 round-to-nearest-even) to exactly the 64 bits of the float —
+given the one fact trusted about CPython, that the text `repr` printed rounds to the float
+(`ReprFaithful`, an explicit hypothesis, checked by exact arithmetic on every sampled float). -/
 theorem float_const_ok (neg : Bool) (ip : List (Fin 10)) (fp : Option (List (Fin 10)))
-    (ex : Option (Bool × List (Fin 10))) (wf : WFRepr (.finite neg ip fp ex)) :
-    ConstOk (.float (.finite neg ip fp ex)) (renderFloat neg ip fp ex) .double := by
+    (ex : Option (Bool × List (Fin 10))) (bits : Nat) (wf : WFRepr (.finite neg ip fp ex))
+    (hr : ReprFaithful (.finite neg ip fp ex) bits) :
+    ConstOk (.float (.finite neg ip fp ex) bits) (renderFloat neg ip fp ex) .double := by
   unfold ConstOk
   simp only [cppFloatL_render neg ip fp ex wf]
-  exact ⟨Dec.same_refl _, trivial, trivial⟩
+  exact ⟨hr, trivial, trivial⟩
 
 /-- `inf`, `-inf` and `nan` have no C++ literal: they are refused (since the fix; before it the
 bare words `inf` / `nan` were emitted). -/
-theorem nonfinite_rejected (r : FloatRepr) (h : r = .nan ∨ ∃ b, r = .inf b) :
-    renderConst (.float r) = .error .nonFinite ∧ OutcomeOk (.float r) (renderConst (.float r)).toOption := by
+theorem nonfinite_rejected (r : FloatRepr) (bits : Nat) (h : r = .nan ∨ ∃ b, r = .inf b) :
+    renderConst (.float r bits) = .error .nonFinite ∧
+    OutcomeOk (.float r bits) (renderConst (.float r bits)).toOption := by
   rcases h with rfl | ⟨b, rfl⟩ <;>
     exact ⟨rfl, by simp [renderConst, Except.toOption, OutcomeOk, Representable]⟩
 
@@ -290,17 +295,18 @@ theorem sub_negative_counterexample :
 /-- Full statement (★) `∀ c, OutcomeOk c (renderConst c).toOption` is false
 (`const_ok_counterexample`). PARTIAL: it holds for every constant that is not an int outside the
 32-bit range (defect exclusion, listed finding) — floats being given by a well-formed `repr` text
-(an assumption about the input, not an exclusion). -/
+that rounds to the float (assumptions about CPython's `repr`, not exclusions). -/
 theorem const_ok_partial (c : PyConst) (hint : ∀ n, c = .int n → InInt32 n)
-    (hfl : ∀ r, c = .float r → WFRepr r) : OutcomeOk c (renderConst c).toOption := by
+    (hfl : ∀ r bits, c = .float r bits → WFRepr r ∧ ReprFaithful r bits) :
+    OutcomeOk c (renderConst c).toOption := by
   cases c with
   | str s => exact str_const_ok s
   | int n => exact int_const_ok_partial n (hint n rfl)
-  | float r =>
+  | float r bits =>
     cases r with
-    | finite neg ip fp ex => exact float_const_ok neg ip fp ex (hfl _ rfl)
-    | inf b => exact (nonfinite_rejected (.inf b) (Or.inr ⟨b, rfl⟩)).2
-    | nan => exact (nonfinite_rejected .nan (Or.inl rfl)).2
+    | finite neg ip fp ex => exact float_const_ok neg ip fp ex bits (hfl _ _ rfl).1 (hfl _ _ rfl).2
+    | inf b => exact (nonfinite_rejected (.inf b) bits (Or.inr ⟨b, rfl⟩)).2
+    | nan => exact (nonfinite_rejected .nan bits (Or.inl rfl)).2
   | bool b =>
     obtain ⟨text, h1, h2⟩ := bool_roundtrip b
     rw [h1]; exact h2
@@ -352,6 +358,10 @@ example : pyIntStr (-1234567890) = "-1234567890" := by decide
 example : WFRepr (.finite false [1] (some [7,9,7,6,9,3,1,3,4,8,6,2,3,1,5,7]) (some (false, [3,0,8]))) := by decide
 example : WFRepr (.finite false [5] none (some (true, [3,2,4]))) ∧ WFRepr (.finite true [0] (some [0]) none) := by decide
 example : String.ofList (renderFloat true [1] (some [5]) (some (true, [0,7]))) = "-1.5e-07" := by decide
+-- repr(0.1) = "0.1" rounds to the bits of 0.1 and not to those of its neighbour; 5e-324 and the largest double
+example : ReprFaithful (.finite false [0] (some [1]) none) 4591870180066957722 ∧
+    ¬ ReprFaithful (.finite false [0] (some [1]) none) 4591870180066957723 := by decide
+example : ReprFaithful (.finite false [5] none (some (true, [3,2,4]))) 1 := by decide
 example : cppFloat "-1.5e-07" = some ({ neg := true, mant := 15, exp := -8 }, .double) := by decide
 example : cppFloat "100" = none ∧ cppInt "1e5" = none := by decide
 example : PlainName "AntiKt4EMTopoJets".toList ∧ PlainName "jet pt [GeV]".toList := by decide
